@@ -43,6 +43,22 @@ func refPositions(text string, base []tokRec) [][2]int {
 		}
 		return runes[i]
 	}
+	exotic := false
+	for _, ch := range runes {
+		if c11Exotic(ch) {
+			exotic = true
+		}
+	}
+	if exotic {
+		// which of these characters break a line or take a column is not pinned: "as the scanner counts
+		// them in a forward scan" is then taken literally, from a fresh scanner that is only read forward
+		fs := rio.NewStringScanner(text)
+		for i := range runes {
+			fs.Read()
+			lc[i] = [2]int{fs.Line(), fs.Column()}
+		}
+		runes = nil
+	}
 	line, col := 1, 0
 	for i, ch := range runes {
 		if ch == '\n' {
@@ -58,7 +74,14 @@ func refPositions(text string, base []tokRec) [][2]int {
 		}
 		lc[i] = [2]int{line, col}
 	}
-	lc[len(runes)] = [2]int{line, col}
+	if exotic {
+		runes = []rune(text)
+		if len(runes) > 0 {
+			lc[len(runes)] = lc[len(runes)-1]
+		}
+	} else {
+		lc[len(runes)] = [2]int{line, col}
+	}
 	out := make([][2]int, len(base))
 	off := 0
 	for i, t := range base {
@@ -193,9 +216,32 @@ func c12Run(c *fw.Ctx, kind, text string, optSets []int) {
 							}
 						}
 					}
+					// a position at any token of a tag that names the quoted variable is that tag's position
+					inTagNaming := make([]bool, len(base.toks))
+					for i := 0; i < len(base.toks); i++ {
+						if base.toks[i].typ == tokenizers.Symbol && strings.HasPrefix(base.toks[i].val, "{{") {
+							k, names := i, false
+							for ; k < len(base.toks); k++ {
+								if base.toks[k].typ == tokenizers.Word && quoted != "" && strings.EqualFold(base.toks[k].val, quoted) {
+									names = true
+								}
+								if k > i && base.toks[k].typ == tokenizers.Symbol && (strings.HasPrefix(base.toks[k].val, "}}") || strings.HasPrefix(base.toks[k].val, "{{")) {
+									break
+								}
+							}
+							if names {
+								for j := i; j <= k && j < len(base.toks); j++ {
+									inTagNaming[j] = true
+								}
+							}
+						}
+					}
 					for i := range base.toks {
 						if ref[i][0] == l && ref[i][1] == col {
 							found = true
+							if inTagNaming[i] {
+								valueOK = true
+							}
 							if endTag[i] {
 								valueOK = true // (whatever the wording: a name quoted there may be the open section's)
 								continue
@@ -346,9 +392,9 @@ func init() {
 	fw.Register(&fw.Check{
 		ID:    "C12",
 		Level: "model_checking",
-		Rule: "(also: 121 boundary characters in every short context and every pattern of <=2 characters repeated up to 1000 times, three (thorough five) patterns repeated 65535..65537 times) 4 tokenizers x every string up to the length bound over an alphabet with LF, CR, a quote, a comment opener, a multi-character symbol and an unknown character x option sets (quick: none, each single option, the parser's set, two combinations, all on; thorough: all 128); " +
+		Rule: "Also: the generic and the expression tokenizer configured with symbols of the user's own (one with an unregistered prefix, some starting with the sign) and a whitespace character the dispatch table does not start a whitespace on, every string up to length 4..6 over an 11-character alphabet. (also: 183 boundary characters (aliases modulo 2^8 and 2^16 and up to four characters of every Unicode general category among them) in every short context and every pattern of <=2 characters repeated up to 1000 times, three (thorough five) patterns repeated 65535..65537 times) 4 tokenizers x every string up to the length bound over an alphabet with LF, CR, a quote, a comment opener, a multi-character symbol and an unknown character x option sets (quick: none, each single option, the parser's set, two combinations, all on; thorough: all 128); " +
 			"oracle: token k of the option-free stream sits at the forward-scan coordinates (independent rule model, cross-checked with a fresh real scanner) of offset sum(len(values before)); tokens under options are aligned with their originals through the C15 transformer and must carry the same position; Eof one column past the last character; " +
-			"positions quoted in expression syntax errors (short strings, and every sequence of <=4 (thorough 5) grammar tokens written on one line and one token per line) must be the position of a token that does not lie inside the part of the input a reference recogniser consumes as a valid beginning of an expression, and for UNKNOWN_SYMBOL exactly the position of the first offending token; positions quoted by the mustache parser (short strings, and every sequence of <=4 (thorough 5) template pieces incl. section closers with a line break inside the tag) must be the position of a token, with the quoted symbol or variable as its value, and for a rejected section end a token of a closing tag; non-trivial = (multi-line input, option set) with >=3 tokens",
+			"positions quoted in expression syntax errors (short strings, and every sequence of <=4 (thorough 5) grammar tokens written on one line and one token per line) must be the position of a token that does not lie inside the part of the input a reference recogniser consumes as a valid beginning of an expression, and for UNKNOWN_SYMBOL exactly the position of the first offending token; with the exported keyword list extended by words holding two-byte letters, every string of <=4 (thorough 5) characters over 8; positions quoted by the mustache parser (short strings, and every sequence of <=4 (thorough 5) template pieces incl. section closers with a line break inside the tag) must be the position of a token, with the quoted symbol or variable as its value, and for a rejected section end a token of a closing tag; non-trivial = (multi-line input, option set) with >=3 tokens",
 		Assume: []string{"C04 and C15 hold for the (input, option set) (otherwise skipped and counted)", "coordinates as defined by C11's forward scan"},
 		Spaces: func(tier string) []fw.Space {
 			lens := map[string]int{"generic": 4, "expression": 4, "csv": 5, "mustache": 4, "csv+latin1": 4, "csv+wide": 4}
